@@ -94,6 +94,12 @@ def run(ctx):
         for second, line in (("md013", "x" * 90), ("md009", "tail   "), ("md019", "#  h"), ("md033", "a <b>c</b>"), ("md034", "see http://a.b/c now"), ("md018", "#h")):
             multi.append(f"# t\n\n<!-- pyml disable-next-line {first},{second}-->\n{line}\n")
             multi.append(f"# t\n\n<!-- pyml disable-num-lines 2 {first}, {second}-->\n{line}\n{line}\n")
+    # a line on which one line-phase rule fires, followed by lines on which the other line-phase rules fire: what a rule is handed
+    # for a line must not depend on what another rule did with an earlier one
+    long_line = "x" * 45 + " " + "y" * 45
+    for first in ("\t", " \t ", "a\tb", "tail   ", "\t\t"):
+        for rest in (long_line, "b\tc", "tail  ", "(http://x.y)[z]", "no newline at end"):
+            multi.append("# t\n\n" + first + "\n\n" + rest + ("\n" if "no newline" not in rest else ""))
     docs = multi + docs
     docs = [d for d in docs if d.strip()]
     jobs = []
@@ -171,7 +177,7 @@ def run(ctx):
                 if minus[r][1] != want:
                     ctx.violation("disable", {"doc": d, "disabled": r, "scenario": sc}, f"under {sc}, disabling {r} changes other rules' reports: {minus[r][1]} vs {want}", group="disable-" + r)
     # no rule mutates a token in scan mode
-    probe_docs = docs[: (210 if ctx.tier == "quick" else 1560)]
+    probe_docs = docs[: (235 if ctx.tier == "quick" else 1585)]
     probe_docs = [(d, ()) for d in probe_docs] + [(d, SCENARIOS[sc]) for sc in ("front-matter-title", "front-matter") for d in FM_DOCS]
     pres = impl.pmap(_mutation_probe, probe_docs, chunksize=8)
     for (d, pset), (code, same, n, err) in zip(probe_docs, pres):
@@ -189,6 +195,6 @@ def run(ctx):
     ]
     return ctx.finish(
         level="proof",
-        rule=f"per document {per} scans: all rules, default set, each of {len(allr)} rules alone, default minus each of {len(default)}; documents from the repository's own test corpus ({len(corpus)} documents; quick: 450 seed-selected incl. 150 with >= 9 lines) + trigger-line documents + 60 documents with pragmas naming two rules; 3 configured scenarios (front matter with a configured title, front matter, non-default styles) x (8 front-matter documents + sampled small documents) x (default set, each default rule alone, default minus each); non-trivial = at least one failure reported; distinct by document",
+        rule=f"per document {per} scans: all rules, default set, each of {len(allr)} rules alone, default minus each of {len(default)}; documents from the repository's own test corpus ({len(corpus)} documents; quick: 450 seed-selected incl. 150 with >= 9 lines) + trigger-line documents + 60 documents with pragmas naming two rules + 25 documents in which line-phase rules fire on successive lines; 3 configured scenarios (front matter with a configured title, front matter, non-default styles) x (8 front-matter documents + sampled small documents) x (default set, each default rule alone, default minus each); non-trivial = at least one failure reported; distinct by document",
         assumptions=["documents on which the parser or a rule crashes are skipped here (C01, C07)"],
     )
